@@ -59,7 +59,7 @@ func TestGeneratorSmoke(t *testing.T) {
 			return
 		}
 		rctx := NewRuntime(zed.NewContext())
-		job, err := compiler.NewJob(rctx, seq, data.NewSource(nil, nil), nil)
+		job, err := compiler.NewJob(rctx.Context, seq, data.NewSource(nil, nil), nil)
 		if err != nil {
 			bad++
 			fails["analyze"]++
